@@ -275,4 +275,6 @@ func runC08(c *hx.Ctx) {
 		pubrelAcrossCuts(o, c, v)
 	}
 	takeoverCombos(o, c)
+	multiFilterSubscribe(o, c, []int{1, 0})
+	multiFilterSubscribe(o, c, []int{2, 1, 0})
 }
